@@ -83,7 +83,15 @@ def run(res, tier, seed, driver_ok):
         Re = T6(b)[:3, :3] @ T6(a)[:3, :3].T
         th = angle_of(Re)
         if th < math.pi - 1e-2:
-            corr('hlp.interp %s %s' % (tmh.H(a), tmh.H(b)), mid.gTAA(), 1e-7)
+            # the result's own rotation must stay away from a half turn too: its six-vector is a logarithm (ill-conditioned there,
+            # known finding C18-midpoint-near-pi-log); such cases are left to the falsifier below
+            if 1e-9 < th:
+                wre_ = th / (2 * math.sin(th)) * np.array([Re[2, 1] - Re[1, 2], Re[0, 2] - Re[2, 0], Re[1, 0] - Re[0, 1]])
+                ang_mid = angle_of(G.rot_ref(wre_ / 2) @ T6(a)[:3, :3])
+            else:
+                ang_mid = angle_of(T6(a)[:3, :3])
+            if ang_mid < math.pi - 1e-2 and angle_of(T6(a)[:3, :3]) < math.pi - 1e-3 and angle_of(T6(b)[:3, :3]) < math.pi - 1e-3:
+                corr('hlp.interp %s %s' % (tmh.H(a), tmh.H(b)), mid.gTAA(), 1e-7)
         if np.max(np.abs(mid.gTAA()[:3, 0] - (a[:3] + b[:3]) / 2)) > tol * 10:
             bad('midpoint-pos', 'interpolated midpoint does not have the mean position', {'a': list(a), 'b': list(b)}, mid.gTAA().reshape(-1).tolist())
         if 1e-5 < th < math.pi - 1e-2:
